@@ -318,6 +318,11 @@ func (s *EMTState) edgeMultiComputeRecordSpecs(raw []RawType, frameIndexOfraw0 F
 		if !x.triggerFound {
 			break
 		}
+		if x.triggerInd < maxLookback {
+			// The zero-threshold refinement can move a trigger found on the first searchable sample
+			// one sample earlier, where a full pre-trigger period is not available.
+			x.triggerInd = maxLookback
+		}
 		t, u, v = u, v, FrameIndex(x.triggerInd)+frameIndexOfraw0
 		recordSpec, valid := edgeMultiShouldRecord(t, u, v, s.npre, s.nsamp, s.mode)
 		if valid {
